@@ -29,10 +29,32 @@ def digest(o):
     return h.hexdigest()[:16]
 
 
+def describe(out):
+    """dtype + digest of a result; rounded so that results are compared to ~1e-12 relative, not bitwise across BLAS paths."""
+    def norm(x):
+        if isinstance(x, (list, tuple)):
+            return [norm(y) for y in x]
+        a = np.asarray(x)
+        if a.dtype.kind in "fc":
+            scale = float(np.abs(a).max()) if a.size else 0.0
+            if scale > 0:
+                a = np.round(a / scale, 10) + 0.0
+        return a
+    first = out[0] if isinstance(out, (list, tuple)) and len(out) else out
+    return "%s %s %s" % (np.asarray(first).dtype, np.asarray(first).shape, digest(norm(out)))
+
+
 def main():
     from checks import c02
     last = None
     for tok in sys.argv[1:]:
+        if tok.startswith("fam:"):
+            _, fam, idx = tok.split(":")
+            try:
+                last = describe(c02.FAMILIES[fam][int(idx)]())
+            except Exception as e:
+                last = "raised " + type(e).__name__
+            continue
         name, v = tok.rsplit(":", 1)
         np.random.seed(0)
         if name.startswith("prox."):
